@@ -13,7 +13,7 @@ from numba_scfg.core.datastructures.basic_block import SyntheticAssignment, Synt
 from numba_scfg.core.datastructures.scfg import SCFG, NameGenerator
 
 from vpbt import gen_graphs as gg, models as M
-from vpbt.core import Collector, h64, lib_frame
+from vpbt.core import Collector, h64, lib_frame, library_raised
 
 PID = "C18"
 RULE = (
@@ -237,8 +237,71 @@ def histories(draw):
     return named, payload, ops, style
 
 
+def shared_generator(rounds, kinds=("synth_return", "synth_exit", "synth_tail")):
+    """One NameGenerator object serves a sequence of graphs (SCFG(graph, name_gen=gen)); each graph already holds a
+    block named like the name the generator would hand out next; earlier graphs are dropped (their memory is
+    reused).  The generator must never hand out a name present in the graph it is serving.  raises M.Viol"""
+    import gc
+
+    from numba_scfg.core.datastructures.basic_block import BasicBlock
+
+    gen = NameGenerator()
+    for rnd in range(rounds):
+        nxt = copy.deepcopy(gen).new_block_name("synth_return")
+        blocks = {"a": BasicBlock(name="a", _jump_targets=("b", nxt)), "b": BasicBlock(name="b", _jump_targets=()), nxt: BasicBlock(name=nxt, _jump_targets=())}
+        orig = set(blocks)  # the SCFG works on the mapping it is given
+        scfg = SCFG(blocks, name_gen=gen)
+        with _Monitor() as mon:
+            scfg.join_returns()
+        for fn, kind, name in mon.log:
+            if name in orig:
+                raise M.Viol("N-clash", f"round {rnd} of one generator serving a sequence of graphs: {fn}({kind!r}) handed out {name!r}, which names a block of the graph")
+        if orig - set(scfg.graph) or any(type(scfg.graph[k]) is not BasicBlock for k in orig):
+            raise M.Viol("N-clobbered", f"round {rnd}: a block of the input graph was overwritten ({sorted(scfg.graph)})")
+        del scfg, blocks
+        if rnd % 7 == 0:
+            gc.collect()
+
+
+def flowinfo_generators(limit):
+    """graphs built by one FlowInfo object asked twice: each graph's own generator must not hand out a present name"""
+    import dis
+
+    from numba_scfg.core.datastructures.flow_info import FlowInfo
+
+    from vpbt import bytecode_model as bm
+
+    n = 0
+    for label, code in bm.corpus_codes(0, 16):
+        if not bm.eligible(code) or len(code.co_code) > 400:
+            continue
+        n += 1
+        if n > limit:
+            break
+        try:
+            fi = FlowInfo.from_bytecode(dis.Bytecode(code))
+            graphs = [fi.build_basicblocks(), fi.build_basicblocks()]
+        except Exception as e:
+            if not library_raised(e):
+                raise
+            continue  # C09's business
+        for k, g in enumerate(graphs):
+            probe_generator(g, f"build #{k + 1} of one FlowInfo ({label})")
+    return n
+
+
 def run(spec):
     col = Collector()
+    if spec[0] == "shared":
+        try:
+            shared_generator(spec[1])
+            n = flowinfo_generators(spec[2])
+            col.count("flowinfo_graphs_probed", 2 * n)
+        except M.Viol as v:
+            col.fail(f"C18:{v.clause}", v.msg, dict(shared_rounds=spec[1], flowinfo=spec[2]), 1)
+        col.count("shared_generator_rounds", spec[1])
+        col.case(("shared", spec[1]), spec[1], True, sample=dict(history="one generator serving a sequence of graphs", rounds=spec[1]), classes=["shared_generator"])
+        return col.result()
     if spec[0] == "ng":
         _, seed, shard, examples = spec
         Mach = hseed(h64(("c18ng", seed, shard)))(_machine(col))
@@ -265,11 +328,18 @@ def run(spec):
 
 def plan(tier, seed):
     if tier == "quick":
-        return [("ng", seed, s, 150) for s in range(4)] + [("hist", seed, s, 200) for s in range(12)]
-    return [("ng", seed, s, 3000) for s in range(8)] + [("hist", seed, s, 3000) for s in range(24)]
+        return [("shared", 300, 40)] + [("ng", seed, s, 150) for s in range(4)] + [("hist", seed, s, 200) for s in range(11)]
+    return [("shared", 5000, 400)] + [("ng", seed, s, 3000) for s in range(8)] + [("hist", seed, s, 3000) for s in range(23)]
 
 
 def replay(inp):
+    if "shared_rounds" in inp:
+        try:
+            shared_generator(inp["shared_rounds"])
+            flowinfo_generators(inp.get("flowinfo", 40))
+        except M.Viol as v:
+            return [(f"C18:{v.clause}", v.msg)]
+        return []
     if "namegen_ops" in inp:
         g = NameGenerator()
         seen = set()
